@@ -69,7 +69,9 @@ for tag in sys.argv[1:]:
         am = {}
     conf = open(f"/tmp/seedwork/confirm_{tag}.log").read() if os.path.exists(f"/tmp/seedwork/confirm_{tag}.log") else ""
     m = re.search(r"demo_with_change_rc=(\d+) demo_without_change_rc=(\d+)", conf)
-    sp = re.search(r"stable_pass=(\d+) passed_now=(\d+) stable_not_passing=(\d+)", conf)
+    sp = None
+    for sp in re.finditer(r"stable_pass=(\d+) passed_now=(\d+) stable_not_passing=(\d+)", conf):
+        pass  # the last line counts (a flaky unseeded pinned test, test_ssim_kernel_size, is re-run serially and the amended result appended)
     det = {}
     for tier in ("quick", "thorough"):
         p = f"/tmp/seedwork/eval_wt_{tag}_{tier}.log"
@@ -83,7 +85,8 @@ for tag in sys.argv[1:]:
         "origin": "written by an independent sub-agent that saw only the property text and its own scratch worktree (nothing from /verif)",
         "confirmed_by_me": {
             "demo_exit_with_change": int(m.group(1)) if m else None, "demo_exit_without_change": int(m.group(2)) if m else None,
-            "pinned_suite_with_change": {"stable_pass": int(sp.group(1)), "passed": int(sp.group(2)), "not_passing": int(sp.group(3))} if sp else None,
+            "pinned_suite_with_change": {"stable_pass": int(sp.group(1)), "passed": int(sp.group(2)), "not_passing": int(sp.group(3)),
+                                         "note": "test_ssim_kernel_size (unseeded random data) needed a serial retry" if "flaky test_ssim_kernel_size" in conf else None} if sp else None,
             "commands": [f"tools/seeded_confirm.sh {wt} {pid}   # demo with / without the change (git apply -R), then tools/baseline.py on the worktree",
                          f"tools/seeded_eval.sh {wt} {pid} quick   # ./check {pid} with kaira imported from the worktree",
                          f"git -C /repo apply seeded/{tag}/patch.diff && ./check {pid} --tier quick; git -C /repo checkout -- ."],
